@@ -50,7 +50,8 @@ PROBES = ["event_queued_while_bytes_buffered", "two_scheduled_due", "equal_when"
           "interrupted_with_sigint_event", "interrupted_without_sigint_event", "paste_event", "paste_refilled", "char_cut_by_read",
           "threshold_none_burst_gt_read_size", "timeout_expired", "unget_ahead_of_stream", "keyboardinterrupt_torn_request",
           "threadsafe_event_woke_blocked_request", "callback_preempted_between_append_and_write", "sentinel_injected",
-          "sigwinch_wakeup", "scheduled_woke_request", "pipe_full_block", "multi_kb_burst", "trigger_created_mid_run"]
+          "sigwinch_wakeup", "scheduled_woke_request", "pipe_full_block", "multi_kb_burst", "trigger_created_mid_run",
+          "request_failed_with_injected_eio"]
 TRIGGERS = {}
 
 KEYS_ASCII = [b"a", b"b", b"c", b"x", b"y", b"z", b" ", b"\n", b"\t", b"\x7f", b"\x01", b"\x04", b"1", b"Q", b"~", b"["]
@@ -110,6 +111,12 @@ def gen_plan(seed, tier, index=0, avoid=()):
         # fault short_read: the kernel hands out fewer bytes than asked for and available (read ordinal -> cap)
         "short_reads": ({str(rng.randint(1, 30)): rng.choice((1, 2, 3, 5)) for _ in range(rng.randint(1, 4))}
                         if faulty and rng.random() < 0.2 else {}),
+        # fault read_eio: os.read of the stream fails with EIO at these read ordinals; the request raises,
+        # nothing may be lost, later requests deliver everything
+        # (not generated: C08's quantifier has no I/O errors in it, and an EIO in the middle of the paste loop
+        # loses the half-built paste -- an exception at an arbitrary point of a request, which the property
+        # does not cover; the hook stays for hand-written plans)
+        "eio_reads": [],
     }
     nmain = rng.choice((3, 6, 10, 20, rng.randint(1, 60 if tier == "quick" else 150)))
     main = []
@@ -245,6 +252,11 @@ def valid(p):
 
 def _simp(p):
     cfg = p["cfg"]
+    if cfg.get("eio_reads"):
+        for k in list(cfg["eio_reads"]):
+            q = planmod.clone(p)
+            q["cfg"]["eio_reads"].remove(k)
+            yield q
     if cfg.get("short_reads"):
         for k in list(cfg["short_reads"]):
             q = planmod.clone(p)
@@ -446,6 +458,8 @@ def _execute(p, s, res):
     kernel.on_tty_read = on_tty_read
     if cfg.get("short_reads"):
         kernel.read_faults[s.fd] = {int(k): ("cap", v) for k, v in cfg["short_reads"].items()}
+    for k in cfg.get("eio_reads", ()):
+        kernel.read_faults.setdefault(s.fd, {})[int(k)] = ("eio",)
 
     def app_handler(signum, frame):
         world.log.add("app_sigint_handler")
@@ -611,6 +625,7 @@ def _execute(p, s, res):
         M.req_reads = []
         pos0 = M.pos
         short0 = world.faults.get("short_read", 0)
+        eio0 = world.faults.get("read_eio", 0)
         world.main_waited = False
         stale = sum(1 for fd in ts_rfds if kernel.readable(fd))
         res["states"].add("%d%d|%s|%d%d|%d|%s|%d" % (
@@ -637,6 +652,15 @@ def _execute(p, s, res):
             return
         except (HarnessError, SimAbort, StepCap, Quiescent):
             raise
+        except OSError as e:
+            if world.faults.get("read_eio", 0) > eio0:
+                # an injected I/O error: the request fails, nothing is consumed, nothing may be lost
+                world.probe("request_failed_with_injected_eio")
+                world.log.add("request_eio", si)
+                return
+            _violate(res, "request_raised", si, {"exception": "%s: %s" % (type(e).__name__, e), "timeout": timeout,
+                                                 "deliverable": deliv})
+            return
         except Exception as e:
             import traceback
             _violate(res, "request_raised", si, {"exception": "%s: %s" % (type(e).__name__, e), "timeout": timeout,
